@@ -366,6 +366,8 @@ Section Calls.
   | VInd (c : gcl) (g : G) (m : M)       (* Individual(graph, metadata) *)
   | VSeq (l : list val)                  (* list *)
   | VTuple (l : list val)                (* tuple *)
+  | VUserSeq (kind : nat) (l : list val) (* any other collections.abc.Sequence that is not a str: UserList,
+                                            GOLEM's Generation, deque, a user-defined Sequence (kind tells which) *)
   | VNone
   | VScalar (s : string).                (* anything else (repr), strings included *)
 
@@ -436,7 +438,7 @@ Section Calls.
     match v with VInd c g m => restore1 k (VGraph c g) (Some m) | _ => Raise end.
 
   Definition seq_items (v : val) : option (list val) :=
-    match v with VSeq l => Some l | VTuple l => Some l | _ => None end.
+    match v with VSeq l => Some l | VTuple l => Some l | VUserSeq _ l => Some l | _ => None end.
 
   (* BaseOptimizationAdapter.adapt *)
   Definition adapt (k : akind) (v : val) : res val :=
@@ -506,7 +508,7 @@ Section Calls.
     match v with
     | VGraph KOpt g => conv_r k KOpt g None
     | VInd c g m => conv_r k c g (Some m)
-    | VSeq (h :: t) | VTuple (h :: t) =>
+    | VSeq (h :: t) | VTuple (h :: t) | VUserSeq _ (h :: t) =>
         if is_ind h || is_opt_inst k h then VSeq (map (restore_elem k) (h :: t)) else v
     | _ => v
     end.
@@ -514,7 +516,7 @@ Section Calls.
   Definition adapt_total (k : akind) (v : val) : val :=
     if is_dom_exact k v then adapt_elem k v
     else match v with
-         | VSeq (h :: t) | VTuple (h :: t) =>
+         | VSeq (h :: t) | VTuple (h :: t) | VUserSeq _ (h :: t) =>
              if is_dom_exact k h then VSeq (map (adapt_elem k) (h :: t)) else v
          | _ => v
          end.
@@ -531,7 +533,7 @@ Section Calls.
   Definition restorable (k : akind) (v : val) : bool :=
     match v with
     | VInd c _ _ => can_restore k c
-    | VSeq (h :: t) | VTuple (h :: t) =>
+    | VSeq (h :: t) | VTuple (h :: t) | VUserSeq _ (h :: t) =>
         if is_ind h then forallb (fun x => is_ind x && elem_restorable k x) (h :: t)
         else if is_opt_inst k h then forallb (fun x => is_graph x && elem_restorable k x) (h :: t)
         else true
@@ -540,7 +542,7 @@ Section Calls.
 
   Definition adaptable (k : akind) (v : val) : bool :=
     match v with
-    | VSeq (h :: t) | VTuple (h :: t) =>
+    | VSeq (h :: t) | VTuple (h :: t) | VUserSeq _ (h :: t) =>
         if is_dom_exact k h
         then forallb (fun x => match x with VGraph c _ => can_adapt k c | _ => false end) (h :: t)
         else true
@@ -561,6 +563,12 @@ Section Calls.
     match a, b with
     | VGraph c g, VGraph c' g' => gcl_eqb c c' && g_eqb g g'
     | VInd c g m, VInd c' g' m' => gcl_eqb c c' && g_eqb g g' && m_eqb m m'
+    | VUserSeq k l, VUserSeq k' r =>
+        Nat.eqb k k' &&
+        (fix go (l r : list val) := match l, r with
+          | [], [] => true
+          | x :: l', y :: r' => val_eqb x y && go l' r'
+          | _, _ => false end) l r
     | VSeq l, VSeq r | VTuple l, VTuple r =>
         (fix go (l r : list val) := match l, r with
           | [], [] => true
